@@ -1149,6 +1149,8 @@ func (e *Exec) checkInvariants(fr *Frame, st *State, ord int, phase string, hdr 
 		if head := fr.iterStart[hdr]; head != nil {
 			senv := e.specEnvAt(fr, st)
 			senv.old = head
+			// old(x) of a local variable: its value at the beginning of the iteration
+			senv.oldVars = e.specEnvAt(fr, head).vars
 			if li := fr.loopRange(hdr); li != nil {
 				senv.rng = li
 			}
